@@ -15,6 +15,7 @@ RULE = ('Inputs: arbitrary Unicode spliced into valid texts and standalone, rand
         'sampled, by a fresh parser object and the module-level convenience function; the outcome must be an AST or '
         'a documented error class, identical across histories, within 2e6 Python calls, with no I/O audit events. '
         'Non-trivial = input of >= 3 tokens; distinct = (entry point, token-kind sequence, outcome class).')
+RULE_ADDED = ' Since the seeding rounds: whitespace-twin groups (incl. unusual escapes), numeric extremes, unit swaps on time bounds, duplicate annotations, human-written corpus at all entry points.'
 ASSUMPTIONS = [
     'ValueError is licensed only when the text applies a name that is not a built-in function',
     'termination is restated as a logical step budget (2e6 Python function calls for <= 60 tokens); a wall-clock '
